@@ -130,6 +130,71 @@ Proof.
       * apply Nat2N.inj. exact Hsl.
 Qed.
 
+(* ---- exactly [bound - count] further distinct new values fit, whatever the history that led to the state ---- *)
+Definition abound (s : ast) : N := N.min (N.of_nat (length (aslots s))) (pmax pbytes - 1).
+
+Fixpoint afill (s : ast) (cs : list cell) : option ast :=
+  match cs with
+  | [] => Some s
+  | c :: r => match astep_c pbytes s (AInsert c) with
+              | Ok (s', ABool true, _) => afill s' r
+              | _ => None
+              end
+  end.
+
+Lemma afill_fits : forall cs s, ainv pbytes s -> NoDup (map fst cs) ->
+  (forall c, In c cs -> as_find (aabs s) (fst c) = None) ->
+  (alen s + N.of_nat (length cs) <= abound s)%N ->
+  exists s', afill s cs = Some s' /\ ainv pbytes s' /\
+    alen s' = (alen s + N.of_nat (length cs))%N /\ abound s' = abound s /\
+    (forall c, In c cs -> as_find (aabs s') (fst c) = Some c) /\
+    (forall k, ~ In k (map fst cs) -> as_find (aabs s') k = as_find (aabs s) k).
+Proof.
+  induction cs as [|c r IH]; intros s Hi Hnd Habsent Hroom; cbn [afill length map] in *.
+  - exists s. split; [reflexivity|]. split; [exact Hi|]. split; [lia|]. split; [reflexivity|].
+    split; [intros c []|]. intros k _. reflexivity.
+  - inversion Hnd as [|a l Hnotin Hnd']; subst.
+    destruct (astep_total pbytes s (AInsert c) Hi I) as [[[s1 out] n] Hrun].
+    assert (Hout : exists b, out = ABool b).
+    { unfold astep_c in Hrun. destruct (ainsert pbytes s c) as [[s2 b2]| |]; cbn in Hrun; try discriminate.
+      injection Hrun as _ <- _. eauto. }
+    destruct Hout as [b ->].
+    destruct (insert_accepts_iff s c s1 b n Hi Hrun) as [Hb [Hlen Hslots]].
+    rewrite (Habsent c (or_introl eq_refl)) in Hb. fold (abound s) in Hb.
+    assert (Hbt : b = true).
+    { rewrite Hb. apply negb_true_iff. apply N.leb_gt. lia. }
+    clear Hb. subst b. rewrite Hrun. cbn [negb] in Hlen.
+    destruct (insert_then_get s c s1 n Hi Hrun) as [Hi1 [_ [Habs1 _]]].
+    assert (Hb1 : abound s1 = abound s) by (unfold abound; rewrite Hslots; reflexivity).
+    destruct (IH s1 Hi1 Hnd') as [s' [Hf [Hi' [Hl' [Hbd' [Hin' Hout']]]]]].
+    + intros d Hd. rewrite Habs1. rewrite as_find_insert_other.
+      * apply Habsent. right; exact Hd.
+      * intros E. apply Hnotin. rewrite <- E. apply in_map. exact Hd.
+    + rewrite Hb1, Hlen. lia.
+    + exists s'. split; [exact Hf|]. split; [exact Hi'|]. split; [rewrite Hl', Hlen; lia|].
+      split; [rewrite Hbd'; exact Hb1|]. split.
+      * intros d [Hd|Hd]; [|apply Hin'; exact Hd]. subst d.
+        rewrite Hout' by exact Hnotin. rewrite Habs1. apply as_find_insert_same. apply Habsent. left; reflexivity.
+      * intros k Hk. rewrite Hout' by (intros Hin; apply Hk; right; exact Hin).
+        rewrite Habs1. apply as_find_insert_other. intros E. apply Hk. left. symmetry; exact E.
+Qed.
+
+(* exactly that many: after them the set reports full and refuses every further value *)
+Theorem afill_exact : forall cs s, ainv pbytes s -> NoDup (map fst cs) ->
+  (forall c, In c cs -> as_find (aabs s) (fst c) = None) ->
+  (alen s + N.of_nat (length cs) = abound s)%N ->
+  exists s', afill s cs = Some s' /\ ainv pbytes s' /\ alen s' = abound s' /\
+    (forall c, In c cs -> as_find (aabs s') (fst c) = Some c) /\
+    (forall c s'' b n, astep_c pbytes s' (AInsert c) = Ok (s'', ABool b, n) -> b = false).
+Proof.
+  intros cs s Hi Hnd Habsent Hroom.
+  destruct (afill_fits cs s Hi Hnd Habsent) as [s' [Hf [Hi' [Hl' [Hbd' [Hin' _]]]]]]; [lia|].
+  exists s'. split; [exact Hf|]. split; [exact Hi'|]. split; [rewrite Hbd'; lia|]. split; [exact Hin'|].
+  intros c s'' b n Hrun. destruct (insert_accepts_iff s' c s'' b n Hi' Hrun) as [Hb _].
+  rewrite Hb. destruct (as_find (aabs s') (fst c)); [reflexivity|].
+  fold (abound s'). apply negb_false_iff. apply N.leb_le. rewrite Hbd'. lia.
+Qed.
+
 End P.
 
 Example clauses_example :
@@ -139,4 +204,13 @@ Example clauses_example :
     (exists k, aget_val s2 (5, 0)%Z = Ok (Some (5, 50)%Z, k)) /\
     exists s3, astep_c 1 s2 (ARemove (5, 0)%Z) = Ok (s3, ABool true, 0%N) /\
       (exists k, aget_val s3 (5, 0)%Z = Ok (None, k)) /\ (exists k, aget_val s3 (3, 0)%Z = Ok (Some (3, 30)%Z, k)).
+Proof. cbv zeta. vm_compute. repeat eexists. Qed.
+
+Example afill_example :
+  let s0 := ainit_c [(7, 7)%Z] [(8, 8)%Z] 3 in
+  exists s1, astep_c 1 s0 (AInsert (5, 50)%Z) = Ok (s1, ABool true, 0%N) /\
+    abound 1 s1 = 3%N /\ alen s1 = 1%N /\
+    exists s2, afill 1 s1 [(9, 90); (2, 20)]%Z = Some s2 /\ alen s2 = 3%N /\
+      aabs s2 = [(2, 20); (5, 50); (9, 90)]%Z /\
+      exists n, astep_c 1 s2 (AInsert (4, 40)%Z) = Ok (s2, ABool false, n).
 Proof. cbv zeta. vm_compute. repeat eexists. Qed.
